@@ -11,7 +11,9 @@ pub struct AES;
 impl AES {
 //@fn AES::aes_ctr
 //@fn AES::encrypt_impl
+//@wrapper AES::encrypt @ src/encryption/mod.rs = AES::encrypt_impl
 //@fn AES::decrypt_impl
+//@wrapper AES::decrypt @ src/encryption/mod.rs = AES::decrypt_impl
 }
 // property-level lemmas over the contracts: decryption inverts encryption, ciphertext lengths
 pub proof fn lemma_cbc_roundtrip<C>(key: Seq<u8>, iv: Seq<u8>, m: Seq<u8>)
